@@ -48,7 +48,8 @@ WORKER_SETS = [
     ("w3", "net1 net2 net3"),
     ("w4", "net1 net2 net3 net4"),
     ("serial", "net0"),
-    ("restricted", "net3 net4 net5"),
+    ("restricted", "net3 net4"),
+    ("restricted5", "net3 net4 net5"),
     ("c2", "cluster1.net6 cluster1.net7"),
     ("cc", "cluster1.net6 cluster2.net6"),
     ("c4", "cluster1.net6 cluster1.net7 cluster2.net6 cluster2.net7"),
@@ -67,6 +68,14 @@ def catalogue(tier, lazy_share=True):
             many = ws_name in ("w4", "c4", "mixed3")
             if tier == "quick" and big and many:
                 continue
+            if ws_name == "restricted5":
+                # net5 only takes a Fedora vm1: with the CentOS selection it is incompatible with every test, which
+                # eager parsing rejects as a whole (EmptyCartesianProduct); lazy parsing skips the worker per test
+                if tier != "quick" or not big:
+                    scenario = simmod.Scenario(selection, dict(DEFAULT_VMS), nets, lazy=True)
+                    scenario.ref_nets = "net3 net4"
+                    scenarios.append((f"{sel_name}/{ws_name}/lazy", scenario))
+                continue
             scenarios.append((f"{sel_name}/{ws_name}", simmod.Scenario(selection, dict(DEFAULT_VMS), nets, lazy=False)))
             if lazy_share and ws_name in ("w2", "w3", "cc", "restricted", "mixed") and (tier != "quick" or not big):
                 scenarios.append((f"{sel_name}/{ws_name}/lazy", simmod.Scenario(selection, dict(DEFAULT_VMS), nets, lazy=True)))
@@ -84,8 +93,8 @@ def scenario_info(scenario):
     if key in _INFO:
         return _INFO[key]
     mods = simmod.setup()
-    eager = simmod.Scenario(scenario.tests, scenario.vm_strs, scenario.nets, False, scenario.slots,
-                            scenario.suite, scenario.extra)
+    eager = simmod.Scenario(scenario.tests, scenario.vm_strs, getattr(scenario, "ref_nets", None) or scenario.nets,
+                            False, scenario.slots, scenario.suite, scenario.extra)
     graph, swarms = simmod.build_graph(eager)
     mods["TestSwarm"].run_swarms = swarms
     helper = simmod.Sim(eager)
@@ -103,7 +112,7 @@ def scenario_info(scenario):
             producers.setdefault(skey, set()).add(ident)
             unset = simmod.state_requests(dict(node.params, **{
                 f"unset_state_{request['type']}_{request['vm']}": request["state"]}), "unset")
-    workers = [w.id for w in graph.workers.values()]
+    workers = scenario.nets.split()
     flat = mods["TestGraph"].parse_flat_nodes(simmod.tests_str(scenario.tests), scenario.param_dict())
     selected = sorted({n.setless_form for n in flat})
     info = {
@@ -343,14 +352,27 @@ def oracle_c01(sim, case):
             unset_before = [e for e in sim.events[:start["i"]] if e["kind"] == "door" and e["action"] == "unset"
                             and any(tuple(r["key"]) == skey for r in e["requests"])]
             if produced and not unset_before:
-                cause = "produced in this run but its pool is not listed or not permitted"
+                producers_listed = [e["worker"] for e in produced
+                                    if any(loc.split(":")[0] == e["worker"] for loc in get["locations"])]
+                scope = get["scope"] or ALL_SCOPES
+                disabled = [w for w in producers_listed if w != start["worker"]
+                            and simmod.source_relation(sim.workers, start["worker"], w) not in scope]
+                if disabled:
+                    cause = ("the producing worker's pool is listed but its scope is disabled by pool_scope although the "
+                             "run decision for the producer was shared with that worker")
+                elif not producers_listed:
+                    cause = "produced in this run by a worker whose pool is not listed"
+                else:
+                    cause = "produced in this run, listed and permitted, yet not available"
             elif unset_before:
                 cause = "removed by a cleanup before the dependant started"
             elif initial_holders:
                 cause = "state only in the own pool of another worker (residue of a previous run) which is not listed"
+            elif in_shared:
+                cause = "state is in the shared pool but the shared scope is disabled and its producer was skipped"
             else:
                 cause = "state exists nowhere and its producer was not run"
-            raise Violation(
+            yield Violation(
                 {"oracle": "state-unavailable-at-start", "cause": cause},
                 f"{start['worker']} started {start['ident']} at t={start['t']} needing {skey[2]} ({skey[1]}) of {skey[0][:40]}; "
                 f"listed {get['locations']} scope {get['scope']}; initial own holders {initial_holders}, in shared: {in_shared}\n"
@@ -362,22 +384,24 @@ def oracle_c02(sim, case):
     if sim.error is not None:
         error = sim.error
         if isinstance(error, Deadlock):
-            raise Violation({"oracle": "deadlock"}, f"all workers wait forever: {error}\n" + brief(sim), case)
-        if isinstance(error, StepBound):
-            raise Violation({"oracle": "step-bound-exceeded"}, f"{error}\n" + brief(sim), case)
-        if isinstance(error, ValueError) and _invalid_settings(run):
-            return
-        raise Violation({"oracle": "traversal-error", "error": type(error).__name__,
-                         "where": _where(error)}, f"{error!r}\n" + brief(sim), case)
+            yield Violation({"oracle": "deadlock"}, f"all workers wait forever: {error}\n" + brief(sim), case)
+        elif isinstance(error, StepBound):
+            yield Violation({"oracle": "step-bound-exceeded"}, f"{error}\n" + brief(sim), case)
+        elif isinstance(error, ValueError) and _invalid_settings(run):
+            pass
+        else:
+            yield Violation({"oracle": "traversal-error", "error": type(error).__name__,
+                             "where": _where(error)}, f"{error!r}\n" + brief(sim), case)
+        return
     composites = max(1, len([n for n in sim.graph.nodes if not n.is_flat()]))
     bound = 3 * composites * max(1, max_tries_of(run)) * (float(run.get("test_timeout", 100)) + 300.0) + 1000.0
     if sim.vtime > bound:
-        raise Violation({"oracle": "virtual-time-bound"}, f"run took {sim.vtime} virtual seconds > {bound}\n" + brief(sim), case)
+        yield Violation({"oracle": "virtual-time-bound"}, f"run took {sim.vtime} virtual seconds > {bound}\n" + brief(sim), case)
     starts = sim.starts()
     if run.get("dry_run") == "yes":
         changing = [e for e in sim.events if e["kind"] == "door" and e["action"] in ("get", "unset", "set")]
         if starts or changing:
-            raise Violation({"oracle": "dry-run-acts"}, f"dry run executed {len(starts)} tests, {len(changing)} state changes\n" + brief(sim), case)
+            yield Violation({"oracle": "dry-run-acts"}, f"dry run executed {len(starts)} tests, {len(changing)} state changes\n" + brief(sim), case)
         return
     # every selected test that is composable with some worker was executed and has a definite result
     reference_names = sim.info["selected"]
@@ -390,12 +414,12 @@ def oracle_c02(sim, case):
             continue  # not composable with any worker (restrictions exclude it)
         executed = [s for s in starts if pattern.search(s["name"])]
         if not executed:
-            raise Violation({"oracle": "selected-test-not-executed"},
+            yield Violation({"oracle": "selected-test-not-executed"},
                             f"{selected} was never executed (nodes: {[n.params['shortname'] for n in matching][:4]})\n" + brief(sim), case)
     for node in nodes:
         pending = [r for r in node.results if r.get("status") == "UNKNOWN"]
         if pending:
-            raise Violation({"oracle": "pending-result-left"},
+            yield Violation({"oracle": "pending-result-left"},
                             f"{node.params['shortname']} keeps a pending UNKNOWN result after the run: {node.results}\n" + brief(sim), case)
 
 
@@ -427,7 +451,7 @@ def oracle_c03(sim, case):
     counts = {}
     for start in sim.starts():
         if start["flat"] or start["clones"]:
-            raise Violation({"oracle": "flat-or-clone-source-executed"},
+            yield Violation({"oracle": "flat-or-clone-source-executed"},
                             f"{start['ident']} executed although flat={start['flat']} clones={start['clones']}\n" + brief(sim), case)
         if start.get("node_type") == "shared_configure_install":
             continue  # first step of the two-step creation counts with the second
@@ -435,8 +459,8 @@ def oracle_c03(sim, case):
         counts.setdefault((start["ident"], group), []).append(start)
     for (ident, group), events in counts.items():
         if len(events) > budget:
-            kind = "stateful" if events[0]["sets"] else "stateless"
-            raise Violation({"oracle": "executed-more-than-budget", "kind": kind, "budget": "1" if budget == 1 else "max_tries"},
+            kind = "creation" if events[0].get("object_root") else "stateful" if events[0]["sets"] else "stateless"
+            yield Violation({"oracle": "executed-more-than-budget", "kind": kind, "budget": "1" if budget == 1 else "max_tries"},
                             f"{ident} executed {len(events)}x in scope {group} by {[e['worker'] for e in events]} with budget {budget}\n" + brief(sim), case)
     # states found at the first examination are not recreated
     first_scan = {}
@@ -449,7 +473,7 @@ def oracle_c03(sim, case):
         if event.get("all_present") and counts.get((ident, group)):
             later = [s for s in counts[(ident, group)] if s["i"] > event["i"]]
             if later:
-                raise Violation({"oracle": "executed-despite-present-states"},
+                yield Violation({"oracle": "executed-despite-present-states"},
                                 f"{ident}: all its states were present at the first scan by {event['worker']} at t={event['t']} "
                                 f"yet it was executed by {[s['worker'] for s in later]} in scope {group}\n" + brief(sim), case)
 
@@ -482,7 +506,7 @@ def oracle_c04(sim, case):
             else:
                 workers_in.remove(w)
             if level > limit and len(set(workers_in)) > 1:
-                raise Violation({"oracle": "concurrent-execution-over-limit"},
+                yield Violation({"oracle": "concurrent-execution-over-limit"},
                                 f"{ident} executed by {sorted(set(workers_in))} at the same time t={t} in scope {group}, limit {limit}\n" + brief(sim, 120), case)
     # back-off period and path reset
     expected = round(max(float(run.get("test_timeout", 100)) * max(max_tries_of(run), 0) / 1000, 0.1), 2)
@@ -492,13 +516,13 @@ def oracle_c04(sim, case):
     for event in sim.events:
         if event["kind"] == "backoff" and event.get("worker"):
             if abs(event["delay"] - expected) > 1e-9:
-                raise Violation({"oracle": "backoff-period"},
+                yield Violation({"oracle": "backoff-period"},
                                 f"{event['worker']} backed off for {event['delay']} instead of {expected}\n" + brief(sim), case)
             awaiting_pick[event["worker"]] = event
         elif event["kind"] == "pick" and event["worker"] in awaiting_pick:
             backoff = awaiting_pick.pop(event["worker"])
             if not event["from_root"]:
-                raise Violation({"oracle": "path-not-reset-after-backoff"},
+                yield Violation({"oracle": "path-not-reset-after-backoff"},
                                 f"{event['worker']} continued from {event['parent']} after backing off at t={backoff['t']}\n" + brief(sim), case)
 
 
@@ -509,7 +533,7 @@ def oracle_c05(sim, case):
         if event["kind"] != "door":
             continue
         if event["action"] == "get" and run.get("pool_filter", "reuse") in ("reuse", "block"):
-            raise Violation({"oracle": "sync-with-reuse-filter"},
+            yield Violation({"oracle": "sync-with-reuse-filter"},
                             f"{event['worker']} copied states {[r['state'] for r in event['requests']]} while backing out with pool_filter={run.get('pool_filter', 'reuse')}\n" + brief(sim), case)
         if event["action"] != "unset":
             continue
@@ -517,11 +541,11 @@ def oracle_c05(sim, case):
         for request in event["requests"]:
             skey = tuple(request["key"])
             if (request["mode"] or "ri")[0] != "f":
-                raise Violation({"oracle": "unset-of-unmarked-state"},
+                yield Violation({"oracle": "unset-of-unmarked-state"},
                                 f"{worker} removed {request['state']} whose unset mode is {request['mode']}\n" + brief(sim), case)
             marked = sim.removable.get(canon(list(skey)))
             if marked is False:
-                raise Violation({"oracle": "unset-of-unmarked-state"},
+                yield Violation({"oracle": "unset-of-unmarked-state"},
                                 f"{worker} removed {request['state']} which its producer does not mark for removal\n" + brief(sim), case)
             group = event.get("group", "run")
             for start, end in intervals:
@@ -532,14 +556,20 @@ def oracle_c05(sim, case):
                 if not same_scope:
                     continue
                 end_t = end["t"] if end else float("inf")
+                if start["worker"] == worker:
+                    where = "same-worker"
+                elif sim.workers[start["worker"]]["swarm"] == sim.workers[worker]["swarm"]:
+                    where = "same-swarm"
+                else:
+                    where = "other-swarm"
                 if start["i"] < event["i"] and (end is None or end["i"] > event["i"]):
-                    raise Violation({"oracle": "removed-while-dependant-running"},
+                    yield Violation({"oracle": "removed-while-dependant-running", "dependant-on": where},
                                     f"{worker} removed {request['state']} at t={t} while {start['worker']} runs {start['ident']}\n" + brief(sim, 120), case)
                 if start["i"] > event["i"]:
                     recreated = any(e["kind"] == "end" and e["i"] > event["i"] and e["i"] < start["i"] and e["status"] in OK_STATUSES
                                     and any(tuple(s["key"]) == skey for s in sim.events[e["start"]]["sets"]) for e in sim.events)
                     if not recreated:
-                        raise Violation({"oracle": "removed-before-dependant-started"},
+                        yield Violation({"oracle": "removed-before-dependant-started", "dependant-on": where},
                                         f"{worker} removed {request['state']} at t={t} but {start['worker']} starts dependant {start['ident']} at t={start['t']}\n" + brief(sim, 120), case)
     # states produced for reuse are still there at the end
     for end in sim.ends():
@@ -551,7 +581,7 @@ def oracle_c05(sim, case):
             if request["state"] in ROOT_STATES or sim.removable.get(canon(list(skey))) is not False:
                 continue
             if skey not in sim.pools.own_of(end["worker"]):
-                raise Violation({"oracle": "reusable-state-lost"},
+                yield Violation({"oracle": "reusable-state-lost"},
                                 f"{request['state']} produced by {end['worker']} is gone at the end of the run\n" + brief(sim), case)
 
 
@@ -589,18 +619,18 @@ def oracle_c08(sim, case):
         params, worker = event["params"], event["worker"]
         wparams = sim.workers[worker]["params"]
         if params.get("nets") != worker or not event["node_worker_in_name"]:
-            raise Violation({"oracle": "executed-on-foreign-worker"},
+            yield Violation({"oracle": "executed-on-foreign-worker"},
                             f"{worker} executed {event['name']} parsed for nets={params.get('nets')}\n" + brief(sim), case)
         for key in ("nets_host", "nets_gateway", "nets_spawner", "nets_shell_host", "nets_shell_port"):
             if params.get(key) != wparams.get(key):
-                raise Violation({"oracle": "worker-connection-params-differ", "key": key},
+                yield Violation({"oracle": "worker-connection-params-differ", "key": key},
                                 f"{event['ident']} on {worker}: {key}={params.get(key)!r}, worker has {wparams.get(key)!r}", case)
         for vm, restr in sim.workers[worker]["restrs"].items():
             if vm not in params.get("vms", "").split():
                 continue
             vm_name = params.get(f"object_id_{vm}", "")
             if vm_name and not restriction_allows(restr, vm_name):
-                raise Violation({"oracle": "executed-despite-worker-restriction"},
+                yield Violation({"oracle": "executed-despite-worker-restriction"},
                                 f"{worker} restricts {vm} by {restr!r} but executed {event['ident']} with {vm_name}", case)
         for get in event["gets"]:
             if get["state"] in ROOT_STATES:
@@ -618,11 +648,11 @@ def oracle_c08(sim, case):
             allowed |= required
             listed = set(get["locations"])
             if not required <= listed:
-                raise Violation({"oracle": "producer-pool-not-listed"},
+                yield Violation({"oracle": "producer-pool-not-listed"},
                                 f"{event['ident']} on {worker} needs {get['state']}: listed {sorted(listed)}, "
                                 f"but {sorted(required - listed)} produced it\n" + brief(sim), case)
             if not listed <= allowed:
-                raise Violation({"oracle": "non-producer-pool-listed"},
+                yield Violation({"oracle": "non-producer-pool-listed"},
                                 f"{event['ident']} on {worker} needs {get['state']}: listed {sorted(listed)}, "
                                 f"but {sorted(listed - allowed)} did not produce it\n" + brief(sim), case)
             for location in listed:
@@ -631,10 +661,10 @@ def oracle_c08(sim, case):
                     continue
                 source = sim.workers.get(wid)
                 if source is None:
-                    raise Violation({"oracle": "unknown-worker-listed"}, f"{location} names no worker of this run", case)
+                    yield Violation({"oracle": "unknown-worker-listed"}, f"{location} names no worker of this run", case)
                 for key, value in source["params"].items():
                     if key.startswith("nets_") and params.get(f"{key}_{wid}") != value:
-                        raise Violation({"oracle": "source-access-params-differ"},
+                        yield Violation({"oracle": "source-access-params-differ"},
                                         f"{event['ident']} on {worker}: {key}_{wid}={params.get(f'{key}_{wid}')!r}, source worker has {value!r}", case)
 
 
@@ -672,7 +702,7 @@ def oracle_registers(sim, case):
         key = (owner[0], owner[1], sim.identity(other), worker)
         expected[key] = expected.get(key, 0) + 1
     if lost:
-        raise Violation({"oracle": "visit-register-discarded"},
+        yield Violation({"oracle": "visit-register-discarded"},
                         f"{lost} visits were registered in registers that no node of the final graph holds any more\n" + brief(sim), case)
     workers = {w.id: w for w in sim.graph.workers.values()}
     by_identity = {}
@@ -686,7 +716,7 @@ def oracle_registers(sim, case):
         for node in by_identity.get(owner_ident, []):
             got = getattr(node, kind).get_counters(other, workers[worker])
             if got != count:
-                raise Violation({"oracle": "visit-counter-not-shared", "kind": kind.strip("_")},
+                yield Violation({"oracle": "visit-counter-not-shared", "kind": kind.strip("_")},
                                 f"{kind} of {node.params['shortname']} reports {got} visits of {other_ident[:60]} by {worker}, "
                                 f"{count} were registered for this identity\n" + brief(sim), case)
     for ident, nodes in by_identity.items():
@@ -694,12 +724,12 @@ def oracle_registers(sim, case):
             continue
         for kind in KINDS:
             if len({id(getattr(n, kind)) for n in nodes}) != 1:
-                raise Violation({"oracle": "equivalent-nodes-do-not-share-register", "kind": kind.strip("_")},
+                yield Violation({"oracle": "equivalent-nodes-do-not-share-register", "kind": kind.strip("_")},
                                 f"{[n.params['shortname'] for n in nodes]} hold different {kind} registers", case)
         for node in nodes:
             others = {id(n) for n in nodes if n is not node}
             if {id(n) for n in node.bridged_nodes} != others:
-                raise Violation({"oracle": "bridging-incomplete-or-asymmetric"},
+                yield Violation({"oracle": "bridging-incomplete-or-asymmetric"},
                                 f"{node.params['shortname']} bridged with {[n.params['shortname'] for n in node.bridged_nodes]} "
                                 f"but equivalent nodes are {[n.params['shortname'] for n in nodes if n is not node]}", case)
 
@@ -708,11 +738,19 @@ ORACLES = {"C01": oracle_c01, "C02": oracle_c02, "C03": oracle_c03, "C04": oracl
            "C05": oracle_c05, "C08": oracle_c08, "REG": oracle_registers}
 
 
-def judge(sim, case, prop):
+def judge(sim, case, prop, known=()):
+    """Evaluate the property's oracle over the whole history; an unlisted violation wins over a listed one."""
     compute_final_producers(sim)
     compute_removable(sim)
     annotate_scans(sim)
-    ORACLES[prop](sim, case)
+    found = {}
+    for violation in ORACLES[prop](sim, case) or ():
+        found.setdefault(violation.key, violation)
+    unknown = [v for k, v in found.items() if k not in known]
+    if unknown:
+        raise unknown[0]
+    if found:
+        raise next(iter(found.values()))
 
 
 def annotate_scans(sim):
@@ -740,10 +778,9 @@ def cross_hits(sim, case, own):
     for prop, oracle in ORACLES.items():
         if prop == own:
             continue
-        try:
-            oracle(sim, case)
-        except Violation as violation:
+        for violation in oracle(sim, case) or ():
             hits.append((prop, violation))
+            break
     return hits
 
 
@@ -780,7 +817,7 @@ def make_run(prop, bias, scenario_filter=None, quick_cases=480, thorough_cases=1
             sim = run_case(case, ctx.scratch)
             labels = labels_of(sim, case)
             try:
-                judge(sim, case, prop)
+                judge(sim, case, prop, ctx.known)
             finally:
                 nontrivial = NONTRIVIAL[prop](sim, case, labels)
                 sample = {"case": case, "executions": len(sim.starts()), "virtual_time": round(sim.vtime, 3),
@@ -820,7 +857,28 @@ def make_replay(prop):
     return replay
 
 
-REGRESSION_CASES = {}
+
+
+def _load_regressions():
+    import glob
+    import os
+
+    from .core import VERIF
+
+    cases = {}
+    for path in sorted(glob.glob(os.path.join(VERIF, "replays", "C*", "*.json"))):
+        prop = os.path.basename(os.path.dirname(path))
+        try:
+            data = json.load(open(path))
+        except ValueError as error:
+            raise HarnessError(f"unreadable regression input {path}: {error}")
+        case = data.get("case", data)
+        if "scenario" in case:
+            cases.setdefault(prop, []).append(case)
+    return cases
+
+
+REGRESSION_CASES = _load_regressions()
 
 COMMON_RULE = (
     "case = scenario of the shipped suite (test selection x worker set incl. lxc/serial/remote clusters/restricted "
@@ -856,7 +914,8 @@ BIASES = {
     "C04": {"dry_run": False, "durations": ["0.1T", "0.1T", "0.3T", "0.3T", "0.5T", "0.5T", "0.99T", "0.2T", "0.6T"],
             "fail_modes": ["none", "none", "some"], "alphabet": ["FAIL", "ERROR", "WARN", "SKIP"]},
     "C05": {"dry_run": False, "pool_modes": ["empty", "shared", "shared", "synced"]},
-    "C08": {"dry_run": False},
+    "C08": {"dry_run": False, "pool_modes": ["empty", "empty", "shared", "residue"],
+            "fail_modes": ["none", "none", "none", "some"]},
 }
 DRIVER_ARGS = {
     "C04": {"scenario_filter": lambda name, scenario: len(scenario.nets.split()) >= 2},
